@@ -1911,8 +1911,10 @@ func main() {
 			}
 			unp := job("mc: server+special rows, 2 commands, base world, unpatched tree (deviations masked)", serverSets, "{}", 2, false, false)
 			unp.Consts["WVS"] = `{"base"}` // all world variants: thorough tier
+			pat := job("mc: server+special rows, 2 commands, base and migrated world, patched tree", serverSets, allFixes, 2, false, false)
+			pat.Consts["WVS"] = `{"base", "migrated"}`
 			return []fw.TLCJob{
-				job("mc: server+special rows, 2 commands, patched tree", serverSets, allFixes, 2, false, false),
+				pat,
 				unp,
 				job("mc: library rows, 3 commands, patched tree", librarySets, allFixes, 3, false, false),
 				concJob("mc: two duplex commands in flight, per-call contexts", false),
@@ -1959,7 +1961,7 @@ func main() {
 			return 0
 		},
 		Drive:       drive,
-		Parallel:    24,
+		Parallel:    48,
 		JudgeModule: "CommandsTrace",
 		JudgeCfg:    "CommandsTrace.cfg",
 		SelfTest:    selfTest,
